@@ -47,6 +47,20 @@ pub struct RunResult {
     pub log: Vec<(u8, u32, u32)>,
 }
 
+/// operations implemented in the crate's `alloc` feature (src/impl_alloc.rs, box_arr!)
+pub fn is_alloc_feature_op(op: &Op) -> bool {
+    use OpKind::*;
+    match op.kind {
+        Collect => (op.args[3] >> 1) % 6 >= 3,
+        ArrToVec | VecToArr | VecToBx | BxToVec | BoxedGenerate | DefaultBoxed | BxIntoIter | BoxArrMacro => true,
+        Map => matches!(op.args[2] % 7, 3 | 6),
+        Fold => op.args[2] % 4 == 3,
+        Zip => op.args[3] % 10 == 9,
+        ItCollect => op.args[1] % 4 == 2,
+        _ => false,
+    }
+}
+
 pub fn run_trace(t: &Trace, record: bool) -> RunResult {
     match t.elem {
         ElemKind::Tr => run::<Tr>(t, record),
@@ -93,6 +107,12 @@ fn run<E: Elem>(t: &Trace, record: bool) -> RunResult {
     for (i, op) in t.ops.iter().enumerate() {
         ledger::op_begin(i as u32, op.kind as u32, &op.faults);
         cx.ops_executed += 1;
+        if t.prop == Prop::C16 {
+            // an element with a heap payload that an alloc-feature operation loses leaves a block
+            // allocated "once all values are gone": judged right after such an operation only
+            // (leaks by other operations are not C16's business)
+            cx.checks.conserve = matches!(E::KIND, ElemKind::Tr | ElemKind::Al) && is_alloc_feature_op(op);
+        }
         let af = ALLOC_FAIL_LAST.load(std::sync::atomic::Ordering::Relaxed);
         let af_here = af != -2 && i + 1 == t.ops.len();
         if af_here {
@@ -125,6 +145,9 @@ fn run<E: Elem>(t: &Trace, record: bool) -> RunResult {
             });
             break;
         }
+    }
+    if t.prop == Prop::C16 {
+        cx.checks.conserve = false;
     }
     // teardown: the caller drops everything it still holds
     let n = t.ops.len();
